@@ -6,12 +6,18 @@
 (*   InsertAVP(n)           put it in front                                 *)
 (*   Marshal(n)             replace all AVPs by those of a two-field struct *)
 (*                          (payloads n and 2 bytes)                        *)
+(*   AddLit(n) / InsLit(n)  AddAVP / InsertAVP of a struct literal whose    *)
+(*                          Length field was never set                      *)
+(*   NewVend(n) / AddVend(n) a vendor AVP created without the V bit (the    *)
+(*                          constructor sets it): 12-byte header            *)
+(*   AddGroupLate(n)        a grouped AVP that received its member after it *)
+(*                          was created, then added                         *)
 (* starting from a fresh message or from Answer(rc) (which already holds a *)
 (* Result-Code AVP).  Invariant: the length kept in the header equals      *)
 (* 20 plus the padded AVP sizes, i.e. the serialised size.                 *)
 (***************************************************************************)
 EXTENDS Integers, Sequences, TLC, Json
-CONSTANTS MaxOps, Lens
+CONSTANTS MaxOps, Lens, FullDepth, LateOps   \* operations beyond position FullDepth are drawn from LateOps only
 VARIABLES order,   \* sequence of [id, size]: id = index of the operation that produced the AVP, size = padded size
           hlen,    \* the length kept in the header
           hist     \* [start, ops]: the operations so far (the R2 case)
@@ -23,18 +29,23 @@ RECURSIVE SumSizes(_)
 SumSizes(s) == IF s = <<>> THEN 0 ELSE Head(s).size + SumSizes(Tail(s))
 
 StartOrder(st) == IF st = "answer" THEN << [id |-> 0, size |-> 12] >> ELSE <<>>
+OpSize(op) == CASE op.op \in {"NewVend", "AddVend"} -> 4 + Size(op.n)
+                 [] op.op = "AddGroupLate" -> 8 + Size(op.n)
+                 [] OTHER -> Size(op.n)
+AllOps == {"NewAVP", "AddAVP", "InsertAVP", "Marshal", "AddLit", "InsLit", "NewVend", "AddVend", "AddGroupLate"}
 Apply(o, h, k, op) ==   \* (order, hlen) after operation number k
-  LET e == [id |-> k, size |-> Size(op.n)] IN
-  CASE op.op \in {"NewAVP", "AddAVP"} -> [order |-> Append(o, e), hlen |-> h + e.size]
-    [] op.op = "InsertAVP"            -> [order |-> <<e>> \o o, hlen |-> h + e.size]
+  LET e == [id |-> k, size |-> OpSize(op)] IN
+  CASE op.op \in {"NewAVP", "AddAVP", "AddLit", "NewVend", "AddVend", "AddGroupLate"} -> [order |-> Append(o, e), hlen |-> h + e.size]
+    [] op.op \in {"InsertAVP", "InsLit"} -> [order |-> <<e>> \o o, hlen |-> h + e.size]
     [] op.op = "Marshal"              -> [order |-> <<e, [id |-> k, size |-> Size(2)]>>, hlen |-> 20 + e.size + Size(2)]
 
+DefaultLateOps == {[op |-> "NewAVP", n |-> 1], [op |-> "Marshal", n |-> 3], [op |-> "InsLit", n |-> 2], [op |-> "AddVend", n |-> 3]}
 Init == \E st \in {"fresh", "answer"} :
           /\ order = StartOrder(st) /\ hlen = 20 + SumSizes(StartOrder(st))
           /\ hist = [start |-> st, ops |-> <<>>]
 Next == /\ Len(hist.ops) < MaxOps
-        /\ \E o \in {"NewAVP", "AddAVP", "InsertAVP", "Marshal"}, n \in Lens :
-             LET op == [op |-> o, n |-> n]  r == Apply(order, hlen, Len(hist.ops) + 1, op) IN
+        /\ \E op \in (IF Len(hist.ops) < FullDepth THEN {[op |-> o, n |-> n] : o \in AllOps, n \in Lens} ELSE LateOps) :
+             LET  r == Apply(order, hlen, Len(hist.ops) + 1, op) IN
              /\ order' = r.order /\ hlen' = r.hlen
              /\ hist' = [hist EXCEPT !.ops = Append(@, op)]
 Spec == Init /\ [][Next]_vars
